@@ -106,7 +106,10 @@ fn project(c: &C12Case) -> Project {
 	std::fs::create_dir_all(&extra).unwrap();
 	let ignore_file = extra.join("my.ignore");
 	// the explicit file also re-includes a path that both global ignore files ignore: it has the last word
-	std::fs::write(&ignore_file, format!("explf-only.{n}\n!glob-both.tmp\n")).unwrap();
+	std::fs::write(&ignore_file, format!("explf-only.{n}\n!glob-both.tmp\ntwof-*.tmp2\n")).unwrap();
+	// a second explicit ignore file, given after the first on the command line although its path sorts before
+	// it: it re-includes one of the paths the first one ignores (the later file has the last word)
+	std::fs::write(extra.join("a-later.ignore"), "!twof-keep.tmp2\n").unwrap();
 	let filter_file = extra.join("my.filter");
 	std::fs::write(&filter_file, "# comment\n\nfiltf-*\n").unwrap();
 	let shared = origin.parent().unwrap().join("shared");
@@ -261,6 +264,8 @@ pub fn run(c: &C12Case) -> Outcome {
 			("path matched by the --ignore-file", ev(p.origin.join(format!("explf-only.{n}")), false, modify), Some(false)),
 			("unrelated path", ev(p.origin.join("plain.txt"), false, modify), Some(true)),
 			("path ignored by the global ignore files and re-included by the --ignore-file", ev(p.origin.join("glob-both.tmp"), false, modify), Some(true)),
+			("path ignored by the first --ignore-file and re-included by the second", ev(p.origin.join("twof-keep.tmp2"), false, modify), Some(true)),
+			("path ignored by the first --ignore-file and not mentioned by the second", ev(p.origin.join("twof-drop.tmp2"), false, modify), Some(false)),
 		],
 		3 => vec![("path matched by --filter", ev(p.origin.join("filt-a.txt"), false, modify), Some(true)), ("path not matched by --filter", ev(p.origin.join("plain.txt"), false, modify), Some(false))],
 		4 => vec![("path matched by the --filter-file", ev(p.origin.join("filtf-a.txt"), false, modify), Some(true)), ("path not matched by the --filter-file", ev(p.origin.join("plain.txt"), false, modify), Some(false))],
@@ -293,14 +298,24 @@ pub fn run(c: &C12Case) -> Outcome {
 	let src_kind = if option == 6 { create } else { modify };
 	events.extend(sources.iter().map(|s| ev(s.1.clone(), false, src_kind)));
 
-	let with_flags = match verdicts(&rt, argv(c, &p, flags, option), &events) {
+	// option 2 in this leg: two --ignore-file options, the second one sorting before the first
+	let argv2 = |flags: u8| {
+		let mut av = argv(c, &p, flags, option);
+		if option == 2 {
+			let pos = av.len() - 2;
+			av.insert(pos, "--ignore-file".into());
+			av.insert(pos + 1, p.origin.join("conf").join("a-later.ignore").into_os_string());
+		}
+		av
+	};
+	let with_flags = match verdicts(&rt, argv2(flags), &events) {
 		Ok(v) => v,
 		Err(e) => {
 			o.fail("harness:build", format!("{e}\ncase {c:?}"));
 			return o;
 		}
 	};
-	let without_flags = match verdicts(&rt, argv(c, &p, 0, option), &events) {
+	let without_flags = match verdicts(&rt, argv2(0), &events) {
 		Ok(v) => v,
 		Err(e) => {
 			o.fail("harness:build", format!("{e}\ncase {c:?}"));
@@ -605,7 +620,7 @@ pub fn check(e: &Engine) {
 	e.assume("source-removal table transcribed from the flag docs; for --filter / --filter-file / --exts only the invariance of the explicit probes is asserted (a positive filter rejects the source probes anyway)");
 	e.enumerate(
 		"flag-matrix",
-		"all 64 combinations of the six ignore-source flags x 8 explicit options (none, --ignore, --ignore-file, --filter, --filter-file, --exts, --fs-events, and a negated --ignore that overlaps a built-in default) x generated projects (a .git directory; plus one project without any VCS marker and one with only a .hg directory, where only 'a flag removes the sources it names and changes no other' is asserted; .gitignore, .ignore, nested .gitignore, .git/info/exclude, global git ignore, global watchexec ignore, paths hit only by the built-in defaults); one probe per source plus probes for the explicit option, inside the origin and under a second watched directory outside it; non-trivial = flag set non-empty and an explicit option given",
+		"all 64 combinations of the six ignore-source flags x 8 explicit options (none, --ignore, --ignore-file (two of them, given in the reverse of their path order, the later one re-including a path the earlier one ignores), --filter, --filter-file, --exts, --fs-events, and a negated --ignore that overlaps a built-in default) x generated projects (a .git directory; plus one project without any VCS marker and one with only a .hg directory, where only 'a flag removes the sources it names and changes no other' is asserted; .gitignore, .ignore, nested .gitignore, .git/info/exclude, global git ignore, global watchexec ignore, paths hit only by the built-in defaults); one probe per source plus probes for the explicit option, inside the origin and under a second watched directory outside it; non-trivial = flag set non-empty and an explicit option given",
 		true,
 		all_cases(e.tier.pick(3, 40)),
 		&run,
